@@ -1362,6 +1362,14 @@ fn apply_var_eq_bounds(model: &mut Model, var1: VarId, var2: VarId) {
         return;
     }
     
+    // An empty integer domain has no bounds to intersect: the model is already unsatisfiable
+    // (an earlier `x == c` removed every value). Leave both domains untouched; the empty one
+    // stays empty and validation reports it.
+    let is_empty_int = |var: VarId| matches!(&model.vars[var], crate::variables::Var::VarI(ss) if ss.is_empty());
+    if is_empty_int(var1) || is_empty_int(var2) {
+        return;
+    }
+
     // Collect bounds from both variables
     let (var1_min, var1_max, is_var1_int) = match &model.vars[var1] {
         crate::variables::Var::VarI(ss) => (ss.min(), ss.max(), true),
